@@ -197,10 +197,12 @@ def oracle(case, out):
                 if cb == "on_inconsistent_topic":
                     n_incons[src] = n_incons.get(src, 0) + 1
                     tn, ty = sh.tinfo[src]
-                    offending = sum(1 for e, tp in sh.topic_of.items()
-                                    if sh.tinfo[tp][0] == tn and sh.tinfo[tp][1] != ty)
+                    # DDS: total_count = number of discovered topics of the same name whose type is inconsistent; the code
+                    # identifies them by their type, so: distinct other types under this name in OTHER participants
+                    offending = len(set(i2[1] for t2, i2 in sh.tinfo.items()
+                                        if i2[0] == tn and i2[1] != ty and sh.parent[t2] != sh.parent[src]))
                     if n_incons[src] == offending + 1:
-                        viol.append({"what": f"topic {src}: {n_incons[src]} inconsistent-topic notifications for {offending} offending remote endpoint(s)",
+                        viol.append({"what": f"topic {src}: {n_incons[src]} inconsistent-topic notifications for {offending} inconsistent remote topic type(s)",
                                      "op": l, "cause": "inconsistent-topic-recounted-every-worker-iteration"})
         sh.apply(t, o)
     # O3 on the whole case (masks constant: no `listeners` op in the case): every matched / data event has its callback
@@ -313,6 +315,9 @@ def scenario(r, event, place, masks=None, same_participant=False, late=None, nil
             p2 = "P2"
             same_participant = False
         lines.append(f"topic t2 {p2} T {ty2}{lopt('t2')}")
+        if event == "inconsistent":
+            # the inconsistency is detected at topic discovery already: record it before any listener configuration changes
+            lines.append("log")
     t2 = "t1" if same_participant else "t2"
     lines.append(f"publisher pub P1{lopt('pub')}")
     lines.append(f"subscriber sub {p2}{lopt('sub')}")
@@ -403,7 +408,8 @@ def corpus():
                     "publisher pub P1", "subscriber sub P2", "writer w pub t1 reliability=best_effort history=keep_all",
                     "reader r sub t2 reliability=reliable history=keep_all", "log", "advance 120000000", "log"],
                    {"event": "incompatible", "exemplar": "D62"}))
-    # D-listen-2 regression: two remote writers with an inconsistent type -> the reader's topic counts 2, each writer's topic 1
+    # D-listen-2 regression: the inconsistent type is reported once per topic at topic discovery; the endpoints created
+    # afterwards (two writers, one reader) and 120 ms of worker iterations add nothing: total stays 1 on both topics
     cs.append(Case(["participant P1 listener=all", "participant P2 listener=all", "topic t1 P1 T ki", "topic t2 P2 T ni",
                     "publisher pub P1", "subscriber sub P2", "writer w pub t1 reliability=reliable history=keep_all",
                     "reader r sub t2 reliability=reliable history=keep_all", "writer w2 pub t1 reliability=reliable history=keep_all",
